@@ -25,16 +25,23 @@ spec fn merged_ord(out: Seq<usize>, l: Seq<usize>, r: Seq<usize>, i: int, j: int
     &&& forall|k: int| 0 <= k < out.len() ==> (i < l.len() ==> #[trigger] out[k] < l[i]) && (j < r.len() ==> out[k] < r[j])
 }
 
-/// pushing x (an element under an advancing cursor) keeps part 1; di/dj say which cursors advance
+// The lemmas below are called from hints inside the extracted code.  They have NO preconditions: what they need is the
+// hypothesis of an implication in their `ensures`, so that a change of the code that invalidates a hypothesis surfaces as a
+// failed contract clause (invariant / postcondition) of the function, never as a failed hint.
+
+/// what a push step needs: di/dj say which cursors advance, x is the element under each advancing cursor
+spec fn push_step(l: Seq<usize>, r: Seq<usize>, i: int, j: int, x: usize, di: int, dj: int) -> bool {
+    &&& (di == 0 || di == 1) && (dj == 0 || dj == 1) && di + dj >= 1
+    &&& di == 1 ==> 0 <= i < l.len() && l[i] == x
+    &&& dj == 1 ==> 0 <= j < r.len() && r[j] == x
+}
+
+/// pushing x (an element under an advancing cursor) keeps part 1
 proof fn lemma_merge_push_set(out: Seq<usize>, l: Seq<usize>, r: Seq<usize>, i: int, j: int, x: usize, di: int, dj: int)
-    requires
-        merged_set(out, l, r, i, j),
-        (di == 0 || di == 1) && (dj == 0 || dj == 1) && di + dj >= 1,
-        di == 1 ==> i < l.len() && l[i] == x,
-        dj == 1 ==> j < r.len() && r[j] == x,
     ensures
-        merged_set(out.push(x), l, r, i + di, j + dj),
+        merged_set(out, l, r, i, j) && push_step(l, r, i, j, x, di, dj) ==> merged_set(out.push(x), l, r, i + di, j + dj),
 {
+    if !(merged_set(out, l, r, i, j) && push_step(l, r, i, j, x, di, dj)) { return; }
     let o2 = out.push(x);
     assert forall|k: int| 0 <= k < o2.len() implies (exists|a: int| 0 <= a < i + di && l[a] == #[trigger] o2[k]) || (exists|b: int| 0 <= b < j + dj && r[b] == o2[k]) by {
         if k < out.len() {
@@ -70,17 +77,19 @@ proof fn lemma_merge_push_set(out: Seq<usize>, l: Seq<usize>, r: Seq<usize>, i: 
 
 /// pushing x (the smaller cursor element) keeps part 2 when both inputs are strictly increasing
 proof fn lemma_merge_push_ord(out: Seq<usize>, l: Seq<usize>, r: Seq<usize>, i: int, j: int, x: usize, di: int, dj: int)
-    requires
-        0 <= i <= l.len() && 0 <= j <= r.len(),
-        merged_ord(out, l, r, i, j), strictly_inc(l), strictly_inc(r),
-        (di == 0 || di == 1) && (dj == 0 || dj == 1) && di + dj >= 1,
-        di == 1 ==> i < l.len() && l[i] == x,
-        dj == 1 ==> j < r.len() && r[j] == x,
-        di == 0 && i < l.len() ==> x < l[i],
-        dj == 0 && j < r.len() ==> x < r[j],
     ensures
-        merged_ord(out.push(x), l, r, i + di, j + dj),
+        strictly_inc(l) && strictly_inc(r)
+            && 0 <= i <= l.len() && 0 <= j <= r.len()
+            && merged_ord(out, l, r, i, j) && push_step(l, r, i, j, x, di, dj)
+            && (di == 0 && i < l.len() ==> x < l[i])
+            && (dj == 0 && j < r.len() ==> x < r[j])
+        ==> merged_ord(out.push(x), l, r, i + di, j + dj),
 {
+    if !(strictly_inc(l) && strictly_inc(r)
+            && 0 <= i <= l.len() && 0 <= j <= r.len()
+            && merged_ord(out, l, r, i, j) && push_step(l, r, i, j, x, di, dj)
+            && (di == 0 && i < l.len() ==> x < l[i])
+            && (dj == 0 && j < r.len() ==> x < r[j])) { return; }
     let o2 = out.push(x);
     assert forall|k: int| 0 <= k < o2.len() implies (i + di < l.len() ==> #[trigger] o2[k] < l[i + di]) && (j + dj < r.len() ==> o2[k] < r[j + dj]) by {
         if k < out.len() { assert(o2[k] == out[k]); }
@@ -94,9 +103,9 @@ proof fn lemma_merge_push_ord(out: Seq<usize>, l: Seq<usize>, r: Seq<usize>, i: 
 
 /// at the end of the merge the output holds exactly the union
 proof fn lemma_merge_done(out: Seq<usize>, l: Seq<usize>, r: Seq<usize>)
-    requires merged_set(out, l, r, l.len() as int, r.len() as int),
-    ensures forall|x: usize| out.contains(x) == (l.contains(x) || r.contains(x)),
+    ensures merged_set(out, l, r, l.len() as int, r.len() as int) ==> forall|x: usize| out.contains(x) == (l.contains(x) || r.contains(x)),
 {
+    if !merged_set(out, l, r, l.len() as int, r.len() as int) { return; }
     assert forall|x: usize| out.contains(x) == (l.contains(x) || r.contains(x)) by {
         if out.contains(x) {
             let k = choose|k: int| 0 <= k < out.len() && out[k] == x;
@@ -148,27 +157,27 @@ decreases
 @before `out.push(a_i);`
     proof {
         lemma_merge_push_set(out@, lhs@, rhs@, i as int, j as int, a_i, 1, 0);
-        if strictly_inc(lhs@) && strictly_inc(rhs@) { lemma_merge_push_ord(out@, lhs@, rhs@, i as int, j as int, a_i, 1, 0); }
+        lemma_merge_push_ord(out@, lhs@, rhs@, i as int, j as int, a_i, 1, 0);
     }
 @before `out.push(b_j);`
     proof {
         lemma_merge_push_set(out@, lhs@, rhs@, i as int, j as int, b_j, 0, 1);
-        if strictly_inc(lhs@) && strictly_inc(rhs@) { lemma_merge_push_ord(out@, lhs@, rhs@, i as int, j as int, b_j, 0, 1); }
+        lemma_merge_push_ord(out@, lhs@, rhs@, i as int, j as int, b_j, 0, 1);
     }
 @before #2 `out.push(a_i);`
     proof {
         lemma_merge_push_set(out@, lhs@, rhs@, i as int, j as int, a_i, 1, 1);
-        if strictly_inc(lhs@) && strictly_inc(rhs@) { lemma_merge_push_ord(out@, lhs@, rhs@, i as int, j as int, a_i, 1, 1); }
+        lemma_merge_push_ord(out@, lhs@, rhs@, i as int, j as int, a_i, 1, 1);
     }
 @before `out.push(*lhs.get_unchecked(i));`
     proof {
         lemma_merge_push_set(out@, lhs@, rhs@, i as int, j as int, lhs@[i as int], 1, 0);
-        if strictly_inc(lhs@) && strictly_inc(rhs@) { lemma_merge_push_ord(out@, lhs@, rhs@, i as int, j as int, lhs@[i as int], 1, 0); }
+        lemma_merge_push_ord(out@, lhs@, rhs@, i as int, j as int, lhs@[i as int], 1, 0);
     }
 @before `out.push(*rhs.get_unchecked(j));`
     proof {
         lemma_merge_push_set(out@, lhs@, rhs@, i as int, j as int, rhs@[j as int], 0, 1);
-        if strictly_inc(lhs@) && strictly_inc(rhs@) { lemma_merge_push_ord(out@, lhs@, rhs@, i as int, j as int, rhs@[j as int], 0, 1); }
+        lemma_merge_push_ord(out@, lhs@, rhs@, i as int, j as int, rhs@[j as int], 0, 1);
     }
 @fn_end
     proof { lemma_merge_done(out@, lhs@, rhs@); }
@@ -176,22 +185,23 @@ decreases
 
 // ---- union_sets_unsafe: both sets listed in ascending order, merged, collected again ----
 
-/// the item sequence of `BTreeSet::iter` (vstd: the set's elements, `increasing_seq`), copied: strictly increasing
-proof fn lemma_set_listing(rem: Seq<&usize>)
-    requires vstd::std_specs::btree::increasing_seq(rem),
-    ensures strictly_inc(rem.unref()),
+/// listing both sets, merging the listings and taking the element set gives the union (hypotheses inside the ensures: see above)
+proof fn lemma_union_listing(va: Seq<usize>, vb: Seq<usize>, m: Seq<usize>, sa: Set<usize>, sb: Set<usize>)
+    ensures
+        va.to_set() == sa && vb.to_set() == sb && (forall|x: usize| m.contains(x) == (va.contains(x) || vb.contains(x)))
+            ==> m.to_set() == sa.union(sb),
 {
-    broadcast use vstd::laws_cmp::group_laws_cmp;
-    assert(vstd::laws_cmp::obeys_cmp::<&usize>());
-    vstd::std_specs::btree::axiom_increasing_seq_meaning(rem);
-    let s = rem.unref();
-    assert forall|i: int, j: int| 0 <= i < j < s.len() implies s[i] < s[j] by {
-        assert(<&usize as vstd::std_specs::cmp::OrdSpec>::cmp_spec(&rem[i], &rem[j]) is Less);
-        assert(s[i] == *rem[i] && s[j] == *rem[j]);
+    if va.to_set() == sa && vb.to_set() == sb && (forall|x: usize| m.contains(x) == (va.contains(x) || vb.contains(x))) {
+        assert forall|x: usize| m.to_set().contains(x) == sa.union(sb).contains(x) by {
+            assert(va.to_set().contains(x) == va.contains(x));
+            assert(vb.to_set().contains(x) == vb.contains(x));
+        }
+        assert(m.to_set() =~= sa.union(sb));
     }
 }
 
 // C11: the result is exactly the union of both operands (the arcs u->v of the union row are those of either row).
+// (`merge_two_sorted` is called on the ascending listings of both sets; its element-set postcondition does not depend on that.)
 /*@fn name=union_sets_unsafe wrap=copied props=C11,C13
 ensures
     r@ == set_a@.union(set_b@),
@@ -199,22 +209,185 @@ ensures
     broadcast use vstd::std_specs::iter::group_iter_axioms;
     broadcast use vstd::laws_cmp::group_laws_cmp;
     broadcast use axiom_btree_set_from_iter;
-    proof {
-        assert(vstd::laws_cmp::obeys_cmp::<usize>());
-        // both set iterators are consumed inside their statements: state the meaning of `increasing_seq` for every candidate
-        assert forall|rem: Seq<&usize>| #[trigger] vstd::std_specs::btree::increasing_seq(rem) implies strictly_inc(rem.unref()) by { lemma_set_listing(rem); }
-    }
 @fn_end
-    proof {
-        assert(vec_a@.to_set() == set_a@);
-        assert(vec_b@.to_set() == set_b@);
-        // the merge is called on strictly increasing inputs (what its name promises), so its output is the ascending listing
-        assert(strictly_inc(vec_a@) && strictly_inc(vec_b@) && strictly_inc(merged@));
-        assert(merged@.to_set() =~= set_a@.union(set_b@)) by {
-            assert forall|x: usize| merged@.to_set().contains(x) == set_a@.union(set_b@).contains(x) by {
-                assert(vec_a@.to_set().contains(x) == vec_a@.contains(x));
-                assert(vec_b@.to_set().contains(x) == vec_b@.contains(x));
-            }
+    proof { lemma_union_listing(vec_a@, vec_b@, merged@, set_a@, set_b@); }
+@*/
+
+// ---- find_partition: the split point of diagonal r of the two key-sorted entry vectors ----
+// `union` calls it for r = k * (n1 + n2) / t, k = 0..=t, and gives thread k the ranges lhs[i_k..i_{k+1}], rhs[j_k..j_{k+1}]; each
+// entry is moved out with `ptr::read` exactly once iff these ranges tile both vectors: (0, 0) first, (n1, n2) last, and both
+// components non-decreasing in r.  The chunks are sorted and folded afterwards, so no more than the tiling is needed.
+
+/// keys strictly increasing (the entries come from `BTreeMap::iter`)
+spec fn keys_inc(s: Seq<KeyRow>) -> bool {
+    forall|a: int, b: int| 0 <= a < b < s.len() ==> s[a].0 < s[b].0
+}
+
+/// the search interval of diagonal r: `r.saturating_sub(n2)` ..= `min(r, n1)`
+spec fn part_lo(r: int, n2: int) -> int { if r >= n2 { r - n2 } else { 0 } }
+spec fn part_hi(r: int, n1: int) -> int { if r < n1 { r } else { n1 } }
+
+/// what the binary search tests at position a of diagonal r: `j < rhs_len && lhs[a].0 > rhs[j].0` with j = r - a
+spec fn part_gt(l: Seq<KeyRow>, rr: Seq<KeyRow>, r: int, a: int) -> bool {
+    0 <= a < l.len() && 0 <= r - a < rr.len() && l[a].0 > rr[r - a].0
+}
+
+/// i is THE split point of diagonal r: the test fails everywhere below i and holds from i on (within the search interval)
+spec fn is_partition(l: Seq<KeyRow>, rr: Seq<KeyRow>, r: int, i: int) -> bool {
+    &&& part_lo(r, rr.len() as int) <= i <= part_hi(r, l.len() as int)
+    &&& forall|a: int| part_lo(r, rr.len() as int) <= a < i ==> !#[trigger] part_gt(l, rr, r, a)
+    &&& forall|a: int| i <= a < part_hi(r, l.len() as int) ==> #[trigger] part_gt(l, rr, r, a)
+}
+
+/// for key-sorted vectors the test is monotone along a diagonal
+proof fn lemma_part_gt_mono(l: Seq<KeyRow>, rr: Seq<KeyRow>, r: int, a: int, b: int)
+    requires keys_inc(l), keys_inc(rr), part_gt(l, rr, r, a), a <= b < l.len(), b <= r,
+    ensures part_gt(l, rr, r, b),
+{
+    if a < b {
+        assert(l[a].0 < l[b].0);
+        assert(rr[r - b].0 < rr[r - a].0);
+    }
+}
+
+/// the test holds at mid and from hi on: it holds from mid on (hypotheses inside the ensures: see merge_two_sorted's lemmas)
+proof fn lemma_part_upper(l: Seq<KeyRow>, rr: Seq<KeyRow>, r: int, mid: int, hi: int)
+    ensures
+        keys_inc(l) && keys_inc(rr) && part_gt(l, rr, r, mid)
+            && (forall|a: int| hi <= a < part_hi(r, l.len() as int) ==> #[trigger] part_gt(l, rr, r, a))
+        ==> (forall|a: int| mid <= a < part_hi(r, l.len() as int) ==> #[trigger] part_gt(l, rr, r, a)),
+{
+    if keys_inc(l) && keys_inc(rr) && part_gt(l, rr, r, mid)
+        && (forall|a: int| hi <= a < part_hi(r, l.len() as int) ==> #[trigger] part_gt(l, rr, r, a)) {
+        assert forall|a: int| mid <= a < part_hi(r, l.len() as int) implies #[trigger] part_gt(l, rr, r, a) by {
+            if a < hi { lemma_part_gt_mono(l, rr, r, mid, a); }
         }
+    }
+}
+
+/// the test fails at mid and everywhere below lo: it fails everywhere up to mid
+proof fn lemma_part_lower(l: Seq<KeyRow>, rr: Seq<KeyRow>, r: int, lo: int, mid: int)
+    ensures
+        keys_inc(l) && keys_inc(rr) && !part_gt(l, rr, r, mid) && 0 <= mid < l.len() && mid <= r
+            && (forall|a: int| part_lo(r, rr.len() as int) <= a < lo ==> !#[trigger] part_gt(l, rr, r, a))
+        ==> (forall|a: int| part_lo(r, rr.len() as int) <= a < mid + 1 ==> !#[trigger] part_gt(l, rr, r, a)),
+{
+    if keys_inc(l) && keys_inc(rr) && !part_gt(l, rr, r, mid) && 0 <= mid < l.len() && mid <= r
+        && (forall|a: int| part_lo(r, rr.len() as int) <= a < lo ==> !#[trigger] part_gt(l, rr, r, a)) {
+        assert forall|a: int| part_lo(r, rr.len() as int) <= a < mid + 1 implies !#[trigger] part_gt(l, rr, r, a) by {
+            if a >= lo && part_gt(l, rr, r, a) { lemma_part_gt_mono(l, rr, r, a, mid); }
+        }
+    }
+}
+
+/// the split points are monotone in r in BOTH components (so consecutive results delimit ranges that tile both vectors)
+proof fn lemma_partition_monotone(l: Seq<KeyRow>, rr: Seq<KeyRow>, r1: int, i1: int, r2: int, i2: int)
+    requires
+        keys_inc(l), keys_inc(rr),
+        0 <= r1 <= r2 <= l.len() + rr.len(),
+        is_partition(l, rr, r1, i1),
+        is_partition(l, rr, r2, i2),
+    ensures
+        i1 <= i2,
+        r1 - i1 <= r2 - i2,
+{
+    let n1 = l.len() as int;
+    let n2 = rr.len() as int;
+    if i2 < i1 {
+        // i2 lies below the split of r1 (test fails) and below the upper end of r2's interval (test holds)
+        assert(!part_gt(l, rr, r1, i2));
+        assert(part_gt(l, rr, r2, i2));
+        if r1 < r2 { assert(rr[r1 - i2].0 < rr[r2 - i2].0); }
+        assert(false);
+    }
+    let d = r2 - r1;
+    if i2 > i1 + d {
+        let a = i1 + d;
+        assert(!part_gt(l, rr, r2, a));
+        assert(part_gt(l, rr, r1, i1));
+        assert(r2 - a == r1 - i1);
+        if d > 0 { assert(l[i1].0 < l[a].0); }
+        assert(false);
+    }
+}
+
+/// first and last split point, and uniqueness: the contract determines the result
+proof fn lemma_partition_ends(l: Seq<KeyRow>, rr: Seq<KeyRow>, r: int, i: int, i_other: int)
+    requires
+        keys_inc(l), keys_inc(rr),
+        0 <= r <= l.len() + rr.len(),
+        is_partition(l, rr, r, i),
+    ensures
+        r == 0 ==> i == 0,
+        r == l.len() + rr.len() ==> i == l.len() && r - i == rr.len(),
+        0 <= i <= l.len() && 0 <= r - i <= rr.len(),
+        is_partition(l, rr, r, i_other) ==> i_other == i,
+{
+    if is_partition(l, rr, r, i_other) {
+        lemma_partition_monotone(l, rr, r, i, r, i_other);
+        lemma_partition_monotone(l, rr, r, i_other, r, i);
+    }
+}
+
+/// what the split means for the keys: everything left of the split in lhs is <= everything strictly right of it in rhs, and
+/// everything left of the split in rhs is < everything right of it in lhs.  (NOT more: lhs[i-1] may exceed rhs[j] - lhs = [5],
+/// rhs = [3], r = 1 gives (1, 0) - which is why `union` sorts and folds the concatenated chunks afterwards.)
+proof fn lemma_partition_cross(l: Seq<KeyRow>, rr: Seq<KeyRow>, r: int, i: int)
+    requires
+        keys_inc(l), keys_inc(rr),
+        0 <= r <= l.len() + rr.len(),
+        is_partition(l, rr, r, i),
+    ensures
+        forall|a: int, b: int| 0 <= a < i && r - i < b < rr.len() ==> (#[trigger] l[a]).0 <= (#[trigger] rr[b]).0,
+        forall|a: int, b: int| i <= a < l.len() && 0 <= b < r - i ==> (#[trigger] rr[b]).0 < (#[trigger] l[a]).0,
+{
+    let j = r - i;
+    assert forall|a: int, b: int| 0 <= a < i && j < b < rr.len() implies (#[trigger] l[a]).0 <= (#[trigger] rr[b]).0 by {
+        // j + 1 <= b < n2, hence i - 1 >= r - n2 + 1 > part_lo: the test fails at i - 1
+        assert(!part_gt(l, rr, r, i - 1));
+        if a < i - 1 { assert(l[a].0 < l[i - 1].0); }
+        if j + 1 < b { assert(rr[j + 1].0 < rr[b].0); }
+    }
+    assert forall|a: int, b: int| i <= a < l.len() && 0 <= b < j implies (#[trigger] rr[b]).0 < (#[trigger] l[a]).0 by {
+        // b < j, hence i < r and i < n1: the test holds at i
+        assert(part_gt(l, rr, r, i));
+        assert(rr[b].0 < rr[j].0);
+        if i < a { assert(l[i].0 < l[a].0); }
+    }
+}
+
+// No precondition (C13): `lo + hi` does not overflow (allocation bound of slices, A2), `r - mid` and `r - lo` do not underflow,
+// both `get_unchecked` indices are in bounds, for ALL r and ALL slices (sorted or not, r beyond n1 + n2 included).
+/*@fn name=find_partition wrap=len ret=p props=C11,C13
+ensures
+    p.0 + p.1 == r,
+    r <= lhs@.len() + rhs@.len() ==> part_lo(r as int, rhs@.len() as int) <= p.0 <= part_hi(r as int, lhs@.len() as int),
+    r <= lhs@.len() + rhs@.len() ==> p.0 <= lhs@.len() && p.1 <= rhs@.len(),
+    r > lhs@.len() + rhs@.len() ==> p.0 == r - rhs@.len() && p.1 == rhs@.len(),
+    r <= lhs@.len() + rhs@.len() ==> (p.0 == part_lo(r as int, rhs@.len() as int) || !part_gt(lhs@, rhs@, r as int, p.0 - 1)),
+    r <= lhs@.len() + rhs@.len() ==> (p.0 == part_hi(r as int, lhs@.len() as int) || part_gt(lhs@, rhs@, r as int, p.0 as int)),
+    keys_inc(lhs@) && keys_inc(rhs@) && r <= lhs@.len() + rhs@.len() ==> is_partition(lhs@, rhs@, r as int, p.0 as int),
+@before `let mut lo`
+    proof { assert(core::mem::size_of::<KeyRow>() == 32); }
+@loop 1
+invariant
+    lhs_len == lhs@.len(),
+    rhs_len == rhs@.len(),
+    lhs_len <= isize::MAX,
+    r > lhs_len + rhs_len ==> lo == r - rhs_len && hi == lhs_len,
+    r <= lhs_len + rhs_len ==> part_lo(r as int, rhs_len as int) <= lo <= hi <= part_hi(r as int, lhs_len as int),
+    r <= lhs_len + rhs_len ==> (lo == part_lo(r as int, rhs_len as int) || !part_gt(lhs@, rhs@, r as int, lo - 1)),
+    r <= lhs_len + rhs_len ==> (hi == part_hi(r as int, lhs_len as int) || part_gt(lhs@, rhs@, r as int, hi as int)),
+    keys_inc(lhs@) && keys_inc(rhs@) && r <= lhs_len + rhs_len ==> forall|a: int| part_lo(r as int, rhs_len as int) <= a < lo ==> !#[trigger] part_gt(lhs@, rhs@, r as int, a),
+    keys_inc(lhs@) && keys_inc(rhs@) && r <= lhs_len + rhs_len ==> forall|a: int| hi <= a < part_hi(r as int, lhs_len as int) ==> #[trigger] part_gt(lhs@, rhs@, r as int, a),
+decreases
+    hi - lo,
+@before `let mid`
+    proof { assert(forall|s: usize| #[trigger] (s >> 1) == s / 2) by (bit_vector); }
+@after `let mid`
+    // both lemmas are implications (no preconditions): stated before the branch, used by whichever branch is taken
+    proof {
+        lemma_part_upper(lhs@, rhs@, r as int, mid as int, hi as int);
+        lemma_part_lower(lhs@, rhs@, r as int, lo as int, mid as int);
     }
 @*/
